@@ -417,7 +417,7 @@ func init() {
 			var jobs []run.Job
 			n, per := 16, 20000
 			if tier == "thorough" {
-				n, per = 64, 40000
+				n, per = 64, 120000
 			}
 			for i := 0; i < n; i++ {
 				jobs = append(jobs, run.Job{Family: "any-modes", Seed: seed*100000 + int64(i), N: per})
